@@ -43,7 +43,8 @@ type c12Knobs struct {
 	NameIDFormat string `json:"authn_nameid_format"` // "" (unset) or a format URN
 	ForceAuthn   *bool  `json:"force_authn"`
 	ReqCtx       bool   `json:"requested_authn_context"`
-	EntityID     string `json:"entity_id"` // "" = unset (metadata URL is the entity ID)
+	ReqCtxCmp    string `json:"requested_authn_context_comparison,omitempty"` // "" (left unset: the schema default is exact), exact, minimum, maximum, better
+	EntityID     string `json:"entity_id"`                                    // "" = unset (metadata URL is the entity ID)
 	AltStream    uint64 `json:"alt_rand_stream"`
 	SensStep     int    `json:"sensitivity_step"`           // creation whose ID is probed byte by byte (-1: none)
 	ShortReads   int    `json:"rand_short_reads,omitempty"` // the configured random source returns at most this many bytes per Read (0: fills the buffer)
@@ -177,14 +178,16 @@ var c12KindW = []int{14, 10, 7, 5, 8, 5, 10, 7, 3, 2, 9, 6, 3, 2, 3}
 
 func genSPEgress(g *Rng, tier string) *Plan {
 	k := c12Knobs{
-		SSOQuery:     Pick(g, "", "", "tenant=a&x=1", "t=a%26b+c&flag"),
-		SLOQuery:     Pick(g, "", "", "tenant=a&x=1", "t=a%26b+c&flag"),
-		NameIDFormat: Pick(g, "", string(saml.UnspecifiedNameIDFormat), string(saml.TransientNameIDFormat), string(saml.EmailAddressNameIDFormat), string(saml.PersistentNameIDFormat)),
-		ReqCtx:       g.Bool(0.4),
-		EntityID:     Pick(g, "", "", "https://sp.example.com/entity", "https://sp.example.com/entity?a=1&b=2", "urn:example:sp:é<1>"),
-		AltStream:    100 + uint64(g.Intn(1000)),
-		ShortReads:   Pick(g, 0, 0, 0, 0, 1, 7, 8),
-		SensStep:     -1,
+		SSOQuery: Pick(g, "", "", "tenant=a&x=1", "t=a%26b+c&flag"),
+		SLOQuery: Pick(g, "", "", "tenant=a&x=1", "t=a%26b+c&flag"),
+		NameIDFormat: Pick(g, "", string(saml.UnspecifiedNameIDFormat), string(saml.TransientNameIDFormat), string(saml.EmailAddressNameIDFormat), string(saml.PersistentNameIDFormat),
+			"urn:oasis:names:tc:SAML:1.1:nameid-format:X509SubjectName", "urn:oasis:names:tc:SAML:1.1:nameid-format:WindowsDomainQualifiedName", "urn:oasis:names:tc:SAML:2.0:nameid-format:kerberos", "urn:example:deployment:employee-number"),
+		ReqCtx:     g.Bool(0.4),
+		ReqCtxCmp:  Pick(g, "exact", "exact", "", "", "minimum", "maximum", "better"),
+		EntityID:   Pick(g, "", "", "https://sp.example.com/entity", "https://sp.example.com/entity?a=1&b=2", "urn:example:sp:é<1>"),
+		AltStream:  100 + uint64(g.Intn(1000)),
+		ShortReads: Pick(g, 0, 0, 0, 0, 1, 7, 8),
+		SensStep:   -1,
 	}
 	switch g.Intn(3) {
 	case 1:
@@ -355,7 +358,7 @@ func c12Configure(sp *saml.ServiceProvider, k c12Knobs) {
 		sp.ForceAuthn = nil
 	}
 	if k.ReqCtx {
-		sp.RequestedAuthnContext = &saml.RequestedAuthnContext{Comparison: "exact", AuthnContextClassRef: c12CtxRef}
+		sp.RequestedAuthnContext = &saml.RequestedAuthnContext{Comparison: k.ReqCtxCmp, AuthnContextClassRef: c12CtxRef}
 	} else {
 		sp.RequestedAuthnContext = nil
 	}
@@ -367,7 +370,7 @@ func (w *c12World) middleware(st c12Step) (*samlsp.Middleware, error) {
 		SignRequest: w.k.SigMethod != "", ForceAuthn: w.k.ForceAuthn != nil && *w.k.ForceAuthn,
 	}
 	if w.k.ReqCtx {
-		opts.RequestedAuthnContext = &saml.RequestedAuthnContext{Comparison: "exact", AuthnContextClassRef: c12CtxRef}
+		opts.RequestedAuthnContext = &saml.RequestedAuthnContext{Comparison: w.k.ReqCtxCmp, AuthnContextClassRef: c12CtxRef}
 	}
 	if st.Custom {
 		rs := st.RelayState
@@ -1043,8 +1046,14 @@ func (w *c12World) checkMessage(em *c12Emission, d *c12Decoded, st c12Step) *c12
 			if rac != nil {
 				ref = c12Child(rac, c12Asrt, "AuthnContextClassRef")
 			}
-			if rac == nil || ref == nil || ref.Text() != c12CtxRef || rac.SelectAttrValue("Comparison", "") != "exact" {
-				return &c12Problem{"requested-authn-context", "exact " + c12CtxRef, "absent or different", ""}
+			cmp := ""
+			if rac != nil {
+				cmp = rac.SelectAttrValue("Comparison", "")
+			}
+			// an unset comparison may travel as an absent or empty attribute or as the schema default
+			okCmp := cmp == w.k.ReqCtxCmp || (w.k.ReqCtxCmp == "" && cmp == "exact")
+			if rac == nil || ref == nil || ref.Text() != c12CtxRef || !okCmp {
+				return &c12Problem{"requested-authn-context", w.k.ReqCtxCmp + " " + c12CtxRef, "absent or different", ""}
 			}
 		} else if rac != nil {
 			return &c12Problem{"requested-authn-context", "none", "present", ""}
